@@ -206,15 +206,39 @@ def py_spec_decode(case, data):
                 filelen_ok=(off + count * reclen == len(data)))
 
 
-def direction2_file(case):
-    """a file produced from the specification only: header + EXTRA_BYTES VLR + records (Python spec encoder)"""
+def spec_vlr(uid, rid, desc, payload, ext=False):
+    """one (E)VLR as the specification lays it out"""
+    return (b"\0\0" + uid.encode().ljust(16, b"\0") + rid.to_bytes(2, "little") + len(payload).to_bytes(8 if ext else 2, "little") +
+            desc.encode().ljust(32, b"\0") + payload)
+
+
+def gen_spec_vlrs(rng, ext):
+    """records a producer other than laspy would write: unknown types and known types, each with its own description"""
+    out = []
+    for _ in range(rng.choice([0, 1, 2, 3])):
+        kind = rng.choice(["unknown", "geodouble", "wkt", "classlookup", "unknown"])
+        desc = rng.choice(["", "by spec encoder", "Producer X v1.2 / run 7", "D" * 32, "a"])
+        if kind == "unknown":
+            out.append(("SpecEnc", rng.randrange(1, 60000), desc, bytes(rng.getrandbits(8) for _ in range(rng.choice([0, 1, 7, 40])))))
+        elif kind == "geodouble":
+            out.append(("LASF_Projection", 34736, desc, struct.pack("<%dd" % 3, 1.5, -2.25, 1e10)))
+        elif kind == "wkt":
+            out.append(("LASF_Projection", 2112, desc, b'GEOGCS["x"]\0'))
+        else:
+            out.append(("LASF_Spec", 0, desc, bytes([2]) + b"ground".ljust(15, b"\0") + bytes([9]) + b"water".ljust(15, b"\0")))
+    return out
+
+
+def direction2_file(case, rng=None):
+    """a file produced from the specification only: public header block with every field set, VLRs (the EXTRA_BYTES record
+    and, with `rng`, other records carrying the producer's own descriptions), records, EVLRs (Python spec encoder)"""
     fmt, minor, n = case["fmt"], case["minor"], case["n"]
     recs = b""
     for i in range(n):
         pats = expected_record_patterns(case, i)
         ws = [int(t[1:]) for _, t in SPEC_FIELDS[fmt]] + extra_widths(case)
         recs += b"".join(int(p).to_bytes(w, "little") for p, w in zip(pats, ws))
-    vlr = b""
+    vlrs = []
     if case["extras"]:
         payload = b""
         for name, (tid, base, k, vals) in case["extras"].items():
@@ -222,26 +246,76 @@ def direction2_file(case):
             d[2] = tid
             d[4:4 + len(name)] = name.encode()
             payload += bytes(d)
-        vlr = b"\0\0" + b"LASF_Spec".ljust(16, b"\0") + (4).to_bytes(2, "little") + len(payload).to_bytes(2, "little") + b"Extra Bytes Record".ljust(32, b"\0") + payload
+        vlrs.append(("LASF_Spec", 4, "EB of the spec encoder" if rng is not None else "Extra Bytes Record", payload))
+    evlrs = []
+    if rng is not None:
+        more = gen_spec_vlrs(rng, False)
+        rng.shuffle(more)
+        vlrs = vlrs + more
+        if minor >= 4:
+            evlrs = gen_spec_vlrs(rng, True)
+    vlr = b"".join(spec_vlr(*v) for v in vlrs)
     hsize = c07.SPEC_SIZE[minor]
     reclen = SPEC_LEN[fmt] + sum(extra_widths(case))
+    hd = case["hdr"]
     h = bytearray(hsize)
     h[0:4] = b"LASF"
     h[24], h[25] = 1, minor
-    h[26:58] = b"spec encoder".ljust(32, b"\0")
-    h[58:90] = b"verif".ljust(32, b"\0")
-    h[90:94] = struct.pack("<HH", 60, 2024)
     h[94:96] = hsize.to_bytes(2, "little")
     h[96:100] = (hsize + len(vlr)).to_bytes(4, "little")
-    h[100:104] = (1 if vlr else 0).to_bytes(4, "little")
+    h[100:104] = len(vlrs).to_bytes(4, "little")
     h[104] = fmt
     h[105:107] = reclen.to_bytes(2, "little")
     if minor < 4:
         h[107:111] = n.to_bytes(4, "little")
-    h[131:179] = struct.pack("<6d", 0.01, 0.01, 0.01, 0.0, 0.0, 0.0)
+    if rng is None:
+        h[26:58] = b"spec encoder".ljust(32, b"\0")
+        h[58:90] = b"verif".ljust(32, b"\0")
+        h[90:94] = struct.pack("<HH", 60, 2024)
+        h[131:179] = struct.pack("<6d", 0.01, 0.01, 0.01, 0.0, 0.0, 0.0)
+    else:
+        h[4:6] = hd["source_id"].to_bytes(2, "little")
+        h[8:24] = hd["guid"]
+        h[26:58] = hd["sysid"].encode().ljust(32, b"\0")
+        h[58:90] = hd["soft"].encode().ljust(32, b"\0")
+        h[90:94] = struct.pack("<HH", hd["date"][1], hd["date"][0])
+        h[131:179] = struct.pack("<6d", *(hd["scales"] + hd["offsets"]))
+        h[179:227] = struct.pack("<6d", 7.5, -7.5, 8.25, -8.25, 9.125, -9.125)      # max x, min x, max y, min y, max z, min z
     if minor >= 4:
         h[247:255] = n.to_bytes(8, "little")
-    return bytes(h) + vlr + recs, recs
+        if evlrs:
+            h[235:243] = (hsize + len(vlr) + len(recs)).to_bytes(8, "little")
+            h[243:247] = len(evlrs).to_bytes(4, "little")
+    data = bytes(h) + vlr + recs + b"".join(spec_vlr(*v, ext=True) for v in evlrs)
+    if rng is None:
+        return data, recs
+    return data, recs, vlrs, evlrs
+
+
+def check_laspy_presents_envelope(ck, case, data, vlrs, evlrs, inp):
+    """header fields, VLRs and EVLRs of a spec-encoded file as laspy presents them"""
+    import laspy
+    try:
+        las = laspy.read(io.BytesIO(data))
+    except Exception as e:
+        ck.fail(f"spec-encoded file with VLRs/EVLRs: laspy could not read the file: {type(e).__name__}: {e}", inp)
+        return
+    hd, h = case["hdr"], las.header
+    got = dict(source_id=h.file_source_id, guid=h.uuid.bytes_le, sysid=h.system_identifier, soft=h.generating_software,
+               year=h.creation_date.year if h.creation_date else None, doy=h.creation_date.timetuple().tm_yday if h.creation_date else None,
+               scales=list(h.scales), offsets=list(h.offsets), maxs=list(h.maxs), mins=list(h.mins), nvlr=len(h.vlrs))
+    want = dict(source_id=hd["source_id"], guid=hd["guid"], sysid=hd["sysid"], soft=hd["soft"], year=hd["date"][0], doy=hd["date"][1],
+                scales=hd["scales"], offsets=hd["offsets"], maxs=[7.5, 8.25, 9.125], mins=[-7.5, -8.25, -9.125], nvlr=len(vlrs))
+    for k, v in want.items():
+        if got[k] != v:
+            ck.fail(f"spec-encoded file: header field {k} presented as {got[k]!r:.80}, the file says {v!r:.80}", dict(inp, header_field=k))
+    for what, wrote, shown in (("VLR", vlrs, list(h.vlrs)), ("EVLR", evlrs, list(las.evlrs or []))):
+        pres = [(u.decode(), r, d.decode("ascii", "replace"), p) for (u, r, d, p) in (c08.canon(v) for v in shown)]
+        if pres != [tuple(v) for v in wrote]:
+            k0 = next((i for i in range(min(len(pres), len(wrote))) if pres[i] != tuple(wrote[i])), min(len(pres), len(wrote)))
+            ck.fail(f"spec-encoded file: {what} list presented differently from the file ({len(pres)} vs {len(wrote)} records; first difference "
+                    f"at record {k0}: presented {pres[k0][:3] if k0 < len(pres) else None} file {tuple(wrote[k0])[:3] if k0 < len(wrote) else None})",
+                    dict(inp, record=k0, which=what))
 
 
 def check_laspy_presents(ck, case, data, inp, what):
@@ -326,6 +400,37 @@ def run(ck):
         # ---------------- direction 2
         data2, recs2 = direction2_file(case)
         check_laspy_presents(ck, case, data2, inp, "spec-encoded file")
+        data3, recs3, vlrs3, evlrs3 = direction2_file(case, ck.rng)
+        ck.count("spec_file_vlrs=%d" % len(vlrs3))
+        ck.count("spec_file_evlrs=%d" % len(evlrs3))
+        check_laspy_presents(ck, case, data3, inp, "spec-encoded file with VLRs/EVLRs")
+        check_laspy_presents_envelope(ck, case, data3, vlrs3, evlrs3, inp)
+        # the same content read by laspy and written again, the EVLRs dropped by the user: the specification decoder must find
+        # a file without an EVLR block (file length = offset + count x record length, no EVLR announced)
+        if case["minor"] >= 4 and evlrs3:
+            ck.count("header_reused_without_evlrs")
+            try:
+                import laspy
+                lasr = laspy.read(io.BytesIO(data3))
+                if ck.rng.random() < 0.5:
+                    lasr.evlrs.clear()
+                    out3 = io.BytesIO()
+                    lasr.write(out3)
+                else:
+                    out3 = io.BytesIO()
+                    with laspy.open(io.BytesIO(data3)) as rd3:
+                        with laspy.open(out3, mode="w", header=rd3.header, closefd=False) as w3:
+                            for chunk in rd3.chunk_iterator(2):
+                                w3.write_points(chunk)
+                d3 = out3.getvalue()
+                off3, rl3 = int.from_bytes(d3[96:100], "little"), int.from_bytes(d3[105:107], "little")
+                cnt3 = int.from_bytes(d3[247:255], "little")
+                nev3, sev3 = int.from_bytes(d3[243:247], "little"), int.from_bytes(d3[235:243], "little")
+                if nev3 != 0 or off3 + cnt3 * rl3 != len(d3):
+                    ck.fail(f"file written without EVLRs from a header that had some: the specification decoder reads number of EVLRs {nev3}, "
+                            f"start {sev3}, file length {len(d3)} vs offset + count x record length {off3 + cnt3 * rl3}", dict(inp, scenario="header reused"))
+            except Exception as e:
+                ck.fail(f"rewriting the spec-encoded file without its EVLRs raised {type(e).__name__}: {e}", inp)
         check_laspy_presents(ck, case, data, inp, "laspy-written file")
         lines.append(f"spec encpoints {case['fmt']} {','.join(map(str, extra_widths(case))) or '-'} " + " ".join(",".join(map(str, r)) for r in exp_rows))
         meta.append(("enc", inp, hx(data[off:off + case["n"] * rl])))
